@@ -1,8 +1,8 @@
 (* C11 - Wire encoding is canonical, stable, and what is signed is what is cleared.
    Statements restated from Proofs/CodecProofs.v and Proofs/CodecProofs2.v (closed by [exact]).
    Partial: the typed lenient decoding of individual fields is not modelled (DESIGN.md section 0); the frame level is. *)
-From Coq Require Import List Bool NArith ZArith String Permutation Sorted.
-From Mac Require Import Model.Err Model.Caveat Model.Access Model.Prohibits Model.Msgpack Model.Codec Proofs.CodecProofs Proofs.CodecProofs2.
+From Coq Require Import List Bool NArith ZArith String Permutation Sorted Decimal DecimalString.
+From Mac Require Import Model.Err Model.Caveat Model.Access Model.Prohibits Model.Msgpack Model.Codec Proofs.CodecProofs Proofs.CodecProofs2 Proofs.JsonTypeProofs Generated.Facts.
 Import ListNotations.
 
 Theorem enc_rs_n_perm_invariant :
@@ -130,6 +130,27 @@ Theorem leaf_refuses_spec :
     d = CBind None \/ d = CCommands None.
 Proof. exact (@leaf_refuses_spec). Qed.
 
+Theorem type_json_roundtrip :
+    forall (reg : list (N * string)) (min_user unreg t : N),
+    reg_ok reg = true -> (t < 2 ^ 64)%N ->
+    type_from_json reg unreg (type_to_json reg min_user t) = t.
+Proof. exact (@type_json_roundtrip_l). Qed.
+
+Theorem facts_reg_ok : reg_ok all_reg = true.
+Proof. exact (@facts_reg_ok_l). Qed.
+
+Theorem type_json_roundtrip_facts :
+    forall t : N, (t < 2 ^ 64)%N ->
+    type_from_json all_reg f_cav_unregistered (type_to_json all_reg f_cav_min_user_defined t) = t.
+Proof. exact (@type_json_roundtrip_facts_l). Qed.
+
+Theorem type_from_json_numeric :
+    forall (reg : list (N * string)) (unreg : N) (s : string) (t : N),
+    find (fun e : N * string => String.eqb (snd e) s) reg = None ->
+    type_from_json reg unreg s = t -> t <> unreg ->
+    exists d : Decimal.uint, NilZero.uint_of_string s = Some d /\ N.of_uint d = t /\ (t < 2 ^ 64)%N.
+Proof. exact (@type_from_json_numeric_l). Qed.
+
 Print Assumptions enc_rs_n_perm_invariant.
 Print Assumptions enc_rs_s_perm_invariant.
 Print Assumptions enc_body_rs_perm.
@@ -150,3 +171,7 @@ Print Assumptions json_rt_validate.
 Print Assumptions json_rt_errors.
 Print Assumptions json_rt_errors_depth.
 Print Assumptions leaf_refuses_spec.
+Print Assumptions type_json_roundtrip.
+Print Assumptions facts_reg_ok.
+Print Assumptions type_json_roundtrip_facts.
+Print Assumptions type_from_json_numeric.
